@@ -24,7 +24,7 @@ ASSUMPTIONS = ['the blade table alg.signs is the one C01 checks against the Clif
                'generated functions are straight-line over + - * (any value-dependent branch raises Trap and is reported)']
 BOUNDS = {
     'quick': 'd<=2: all 3^d signature orderings x T(d) x T(d) complete; d=3: pqr(3) x tuples of <=2 blades in any order; '
-             'integer grid {-1,0,1,2}^k, k<=4, d<=2',
+             'integer grid {-1,0,1,2}^k, k<=4, d<=2; d=4 single blades; d=7 (lazy table) sparse tuples <=3 blades',
     'thorough': 'quick + d=3: S(3)xS(3) complete for 4 pqr configurations, subsets <=3 blades for all 27 orderings, '
                 'tuples <=3 blades x single blades; d=4 grade blocks, <=1-blade tuples, dense in 3 orders; d=5,6 grade '
                 'blocks (diagonal and small blocks); d=7,8 lazy-table algebras: single blades and sparse 3-blade tuples',
@@ -42,6 +42,9 @@ def shards(tier, seed):
     s3 = 'd=3: pqr(3) x ordered tuples of <=2 blades x same'
     for p, q, r in spaces.pqr(3):
         sh += mk(s3, spaces.cfg_pqr(p, q, r), ('T', 2), ('T', 2), 4)
+    if tier == 'quick':
+        sh += mk('d=7 (lazy blade table): sparse tuples of <=3 blades', spaces.cfg_pqr(6, 0, 1), ('sparse3',), ('sparse3',), 4)
+        sh += mk('d=4: <=1-blade tuples x same', spaces.cfg_pqr(3, 0, 1), ('B',), ('B',), 2)
     if tier == 'thorough':
         for p, q, r in [(3, 0, 0), (2, 0, 1), (1, 1, 1), (0, 3, 0)]:
             sh += mk('d=3: all 256x256 canonical subset pairs (4 pqr configurations)', spaces.cfg_pqr(p, q, r),
@@ -84,15 +87,13 @@ def check_pair(alg, cfg, ka, kb, res, stratum, grid=False):
     a = gmv(alg, ka, 'a')
     b = gmv(alg, kb, 'b')
     res.evals += 1
-    exp = expected(alg, ka, a.values(), kb, b.values())
-    nz = {k for k, v in exp.items() if not iszero(v)}
-    if nz:
-        res.nontrivial += 1
     case = {'shard': dict(stratum=stratum, cfg=cfg, left=['list', [list(ka)]], right=['list', [list(kb)]], chunk=(0, 1), grid=grid)}
     sigkey = f'gp:{len(ka)}x{len(kb)}'
     repro = (f"from kingdon import Algebra\nalg = {cfg_repro(cfg)}\n"
              f"a = alg.multivector(keys={tuple(ka)}, name='a'); b = alg.multivector(keys={tuple(kb)}, name='b')\nprint(a*b)")
+    exp = None
     try:
+        # the implementation runs first: the oracle reads alg.signs, which would fill a lazily built table (d > 6) for it
         got_mv = a * b
         got, dup = mvdict(got_mv)
         keys_out, func = alg.gp[tuple(ka), tuple(kb)]
@@ -101,8 +102,12 @@ def check_pair(alg, cfg, ka, kb, res, stratum, grid=False):
         res.violate(violation(sigkey + ':trap', f'gp {cfg_name(cfg)} keys {ka} x {kb}: {e}', case, 'value independent control flow', str(e), repro))
         return
     except Exception as e:
-        res.violate(violation(sigkey + ':raises', f'gp {cfg_name(cfg)} keys {ka} x {kb} raises {type(e).__name__}: {e}', case, show(exp), repr(e), repro))
+        res.violate(violation(sigkey + ':raises', f'gp {cfg_name(cfg)} keys {ka} x {kb} raises {type(e).__name__}: {e}', case, 'the bilinear extension', repr(e), repro))
         return
+    exp = expected(alg, ka, a.values(), kb, b.values())
+    nz = {k for k, v in exp.items() if not iszero(v)}
+    if nz:
+        res.nontrivial += 1
     bad = eq_elem(got, exp) or eq_elem(direct, exp)
     missing = sorted(nz - set(got))
     if dup or bad or missing or len(keys_out) != len(set(keys_out)):
